@@ -1,7 +1,7 @@
 # C30: bluetoe::details::ring under a deterministic two-context scheduler (lib/sched.hpp), needs hook 2 (ring.hpp index type)
 target('c30_ring', 'engines/comp/c30_ring.cpp',
-       quick=dict(cases=160000, size=60),
-       thorough=dict(cases=2000000, size=80))
+       quick=dict(cases=960000, size=60),
+       thorough=dict(cases=4000000, size=80))
 # exhaustive enumeration of complete schedule trees; runs in the thorough tier only (quick: 0 cases).
 # parts must equal the number of worker processes; `cases` is the number of trees of dfs_space() (2144), so every
 # worker gets exactly its share. The evidence shows one class dfs-part-<k>-of-8-complete per finished share.
